@@ -184,7 +184,9 @@ def fault_model(ndatasets=1, residual_function="variable_projection", link_clp=N
 def fault_parameters(start=(0.55, 1.1), nonneg=False):
     from glotaran.parameter import Parameters
     # nonneg: the second rate is optimised as its logarithm (the history then holds log-values that must be mapped back)
-    p = Parameters.from_dict({"k": [["1", start[0]], ["2", start[1], {"non-negative": bool(nonneg)}]]})
+    # x.dbl: a parameter defined by an expression of a free parameter (no model item uses it).  The working copy of an optimisation
+    # rewrites its value at every evaluation; the caller's object must keep the value it had
+    p = Parameters.from_dict({"k": [["1", start[0]], ["2", start[1], {"non-negative": bool(nonneg)}]], "x": [["dbl", {"expr": "$k.1 * 2"}]]})
     # start values as a refit has them (result.get_scheme()): they carry the standard errors of the earlier fit, which belong to the caller
     for i, q in enumerate(p.all()):
         q.standard_error = 0.01 * (i + 1)
